@@ -50,13 +50,19 @@ Lemma op_requests_forms_agree :
     (forall d, valid_digest d = true ->
        op_requests vr op plain breg brepo (breg ++ [c_slash] ++ brepo ++ [c_at] ++ d) d0
        = op_requests vr op plain breg brepo d d0 /\
-       forall junk, contains c_slash junk = false -> contains c_at junk = false ->
+       (forall junk, contains c_slash junk = false -> contains c_at junk = false ->
          op_requests vr op plain breg brepo (junk ++ [c_at] ++ d) d0
-         = op_requests vr op plain breg brepo d d0).
+         = op_requests vr op plain breg brepo d d0) /\
+       (forall junk, contains c_at junk = false ->
+         op_requests vr op plain breg brepo (breg ++ [c_slash] ++ brepo ++ [c_colon] ++ junk ++ [c_at] ++ d) d0
+         = op_requests vr op plain breg brepo d d0)).
 Proof.
   intros vr op plain breg brepo d0 Hr Hp. unfold op_requests. split.
   - intros t Ht. rewrite (repo_parse_full_tag vr breg brepo Hr Hp t Ht), (repo_parse_tag vr breg brepo t Ht). reflexivity.
   - intros d Hd. rewrite (repo_parse_full_digest vr breg brepo Hr Hp d Hd), (repo_parse_digest vr breg brepo d Hd).
-    split; [reflexivity|]. intros junk Hs Ha.
-    rewrite (repo_parse_tag_at_digest vr breg brepo junk d Hs Ha Hd). reflexivity.
+    split; [reflexivity|]. split.
+    + intros junk Hs Ha.
+      rewrite (repo_parse_tag_at_digest vr breg brepo junk d Hs Ha Hd). reflexivity.
+    + intros junk Ha.
+      rewrite (repo_parse_full_tag_digest vr breg brepo Hr Hp junk d Ha Hd). reflexivity.
 Qed.
